@@ -477,6 +477,13 @@ def lean_obligations(ctx, prop, theorems, allow_axioms=(), allow_bv_decide_in=()
     if not aok:
         ctx.obligations.append(dict(name="audit module elaborates", ok=False, log=txt[-2000:]))
         all_ok = False
+    if ctx.tier == "thorough" and all_ok:
+        # independent re-check of the compiled module by the toolchain's olean checker
+        with LakeLock():
+            p = sh(["lake", "env", "leanchecker", mod], cwd=LEAN, timeout=1800)
+        lc_ok = p.returncode == 0
+        ctx.obligations.append(dict(name="leanchecker " + mod, ok=lc_ok, axioms=[], log=(p.stdout + p.stderr).decode(errors="replace")[-600:]))
+        all_ok = all_ok and lc_ok
     ctx.build_log = log
     ctx.build_errors = "" if all_ok else txt[-2000:]
     return all_ok
@@ -524,3 +531,49 @@ TRUSTED_COMMON = [
     "correspondence harness harness/*.c + tools (differential testing: what was not run is not tied)",
     "gcc 12.2 / glibc / libgomp; C library functions modelled by their specification",
 ]
+
+
+def replay_generic(path):
+    """re-run what a replay file describes against /repo's current tree: correspondence ops are fed again to kvh and kmodel,
+    end-to-end cases are re-run through the harness; prints what is observed now"""
+    from . import sysrun
+    r = json.load(open(path))
+    print("property:", r.get("property"), "| what:", r.get("what"))
+    kvh = build_harness("asan")
+    ok_, log = lake_build(["kmodel"])
+    shown = False
+    for d in r.get("first", []) or []:
+        if isinstance(d, dict) and "op" in d:
+            diffs = correspond(kvh, [d["op"]])
+            print("op   :", d["op"][:400])
+            print("  then: impl=%s model=%s" % (str(d.get("impl"))[:200], str(d.get("model"))[:200]))
+            print("  now : %s" % ("agree" if not diffs else "impl=%s model=%s" % (str(diffs[0]["impl"])[:200], str(diffs[0]["model"])[:200])))
+            shown = True
+    def find_cases(o, acc):
+        if isinstance(o, dict):
+            if "records" in o and "type" in o:
+                acc.append(o)
+            for v in o.values():
+                find_cases(v, acc)
+        elif isinstance(o, list):
+            for v in o:
+                find_cases(v, acc)
+    cases = []
+    find_cases(r, cases)
+    for c in cases[:4]:
+        recs = [tuple(x) for x in c["records"] if x[0] != "..."]
+        cs = sysrun.Case(recs, c.get("type", 5), c.get("gpo", -1), c.get("gpe", -1), c.get("tgpe", -1), c.get("threads", 1), c.get("fmt", "fasta"),
+                         c.get("api", "file"), intext=c.get("intext"))
+        sysrun.run_cases(kvh, [cs])
+        print("case (%d records, type %s, api %s, threads %s): status now = %s" % (len(recs), cs.type, cs.api, cs.threads, cs.status))
+        rows = None
+        try:
+            rows = sysrun.parse_output(cs)
+        except Exception as ex:
+            print("  output not parseable:", ex)
+        for n, row in (rows or [])[:12]:
+            print("  %-12s %s" % (n[:12], row[:150]))
+        shown = True
+    if not shown:
+        print(json.dumps(r, indent=1)[:6000])
+    return 0
